@@ -1,6 +1,6 @@
 use anyhow::{bail, Error, Result};
 use dcbor::prelude::*;
-use bc_components::{tags, Digest};
+use bc_components::{tags, Digest, DigestProvider};
 #[cfg(feature = "encrypt")]
 use bc_components::EncryptedMessage;
 #[cfg(feature = "compress")]
@@ -83,12 +83,22 @@ impl CBORTaggedDecodable for Envelope {
                     #[cfg(feature = "encrypt")]
                     tags::TAG_ENCRYPTED => {
                         let encrypted = EncryptedMessage::from_untagged_cbor(item.clone())?;
+                        // Only the canonical form is accepted: the element must
+                        // re-encode to exactly what was read.
+                        if encrypted.untagged_cbor() != *item {
+                            bail!("non-canonical encrypted element")
+                        }
                         let envelope = Self::new_with_encrypted(encrypted)?;
                         Ok(envelope)
                     },
                     #[cfg(feature = "compress")]
                     tags::TAG_COMPRESSED => {
                         let compressed = Compressed::from_untagged_cbor(item.clone())?;
+                        // Only the canonical form is accepted: the element must
+                        // re-encode to exactly what was read.
+                        if compressed.untagged_cbor() != *item {
+                            bail!("non-canonical compressed element")
+                        }
                         let envelope = Self::new_with_compressed(compressed)?;
                         Ok(envelope)
                     },
@@ -108,6 +118,11 @@ impl CBORTaggedDecodable for Envelope {
                     .cloned()
                     .map(Self::from_untagged_cbor)
                     .collect::<Result<Vec<Self>, Error>>()?;
+                // The assertion elements MUST appear in ascending lexicographic
+                // order of their digests, which also excludes duplicates.
+                if !assertions.windows(2).all(|w| w[0].digest() < w[1].digest()) {
+                    bail!("node assertions must be in strictly ascending digest order")
+                }
                 Ok(Self::new_with_assertions(subject, assertions)?)
             }
             CBORCase::Map(_) => {
